@@ -1,5 +1,5 @@
-// Counterexample found by mirsym/z3 for property C06, template loop_clause_and_filter: loop { conde { q == p0, q == 7 }, q != p0 } with parameters [1]: engine answer 0 is not a reference answer: the ground instance q = [] is an instance of an engine answer but not a solution
-// Replay: /verif/check C06 --replay /verif/replay/cases/C06-loop_clause_and_filter_spurious.rs
+// Counterexample found by mirsym/z3 for property C11, template project_deep_walk_member: |x, y| { x == [y], member(y, [p0, p1]), closure { project |x| { succ_head(x, q) } } } with parameters [0, -3]: program panics: Cannot project non-Projection LTerm.
+// Replay: /verif/check C11 --replay /verif/replay/cases/C11-project_deep_walk_member_panic.rs
 #![allow(unused_imports, unused_variables, unused_mut)]
 use proto_vulcan::prelude::*;
 use proto_vulcan::lterm::LTerm;
@@ -29,11 +29,10 @@ pub fn succ_head(u: T, v: T) -> Goal<TU, TE> { Goal::dynamic(Rc::new(Succ { u, v
 
 #[test]
 fn replay() {
-    let p0: T = LTerm::from(1);
+    let p0: T = LTerm::from(0);
+    let p1: T = LTerm::from(-3);
     let query = proto_vulcan_query!(|q| {
-        loop { conde { q == p0, q == 7 }, q != p0 },
-        q == []
+        |x, y| { x == [y], member(y, [p0, p1]), closure { project |x| { succ_head(x, q) } } }
     });
-    let n = query.run().take(64).count();
-    assert_eq!(n > 0, false, "q = [] must not be a solution");
+    let _n = query.run().take(64).count();
 }
